@@ -307,7 +307,7 @@ func Run(c *core.Ctx) {
 	core.ModelMustHold(c, core.ModelCheck(c, "MCDurable", "MCDurable.cfg", core.TLCOpts{}), "MCDurable")
 	rng := rand.New(rand.NewSource(c.Seed))
 	var specs []runSpec
-	nw := c.Pick(3, 12)
+	nw := c.Pick(4, 12)
 	for wI := 0; wI < nw; wI++ {
 		seed := c.Seed*100 + int64(wI)
 		prefix := []string{"", "pfx"}[wI%2]
@@ -316,6 +316,9 @@ func Run(c *core.Ctx) {
 			occ := []int{1, 2, 4}
 			if c.Thorough() {
 				occ = []int{1, 2, 3, 4, 5, 6, 8, 10}
+			} else if p == "bs.committed" {
+				// between the value commit and the index update: every mutation of the workload
+				occ = []int{1, 2, 3, 4, 5, 6, 7, 8}
 			}
 			for _, k := range occ {
 				specs = append(specs, runSpec{seed: seed, kill: fmt.Sprintf("%s:%d", p, k), prefix: prefix})
